@@ -278,6 +278,16 @@ def check(model: Model, run: Run) -> None:
     )
     _r8_validate_first(model, run, cnt)
 
+    # ------------------------------------------------------------------ R10
+    run.rule(
+        'C14.R10',
+        'a line that does not parse gives no route: in every API.api_* parse function a false Configuration.partial() leads to the '
+        'empty result on its own, whatever else is tested with it (`not partial(...) and <other>` lets the routes completed before the '
+        'syntax error through, and the handlers install them and answer done)',
+        floor=5,
+    )
+    _r10_parse_gate(model, run)
+
     # ------------------------------------------------------------------ R9
     run.rule(
         'C14.R9',
@@ -791,3 +801,71 @@ def _r9_no_default_action(model: Model, run: Run, cnt: Counter) -> None:
             )
     if n < 30:
         run.cannot('only %d command handlers found' % n)
+
+
+# ---------------------------------------------------------------------------------------------- R10
+def _r10_parse_gate(model: Model, run: Run) -> None:
+    import itertools
+
+    n = 0
+    for q, fi in sorted(model.funcs.items()):
+        if not q.startswith('exabgp.reactor.api.API.api_'):
+            continue
+        pcalls = model.calls_to(fi.module, fi.node, 'Configuration.partial')
+        if not pcalls:
+            continue
+        run.analysed(fi)
+        pm = parent_map(fi.node)
+        for pc in pcalls:
+            n += 1
+            # the `if` whose test holds the call
+            cur: ast.AST | None = pc
+            test_if = None
+            while cur is not None and cur is not fi.node:
+                par = pm.get(id(cur))
+                if isinstance(par, ast.If) and par.test is cur:
+                    test_if = par
+                    break
+                cur = par
+            inst = '%s: partial() false -> no route' % short(q)
+            if test_if is None:
+                run.violation(q, 'the result of partial() is not tested', fi.loc(pc), 'the routes of a line that failed to parse are returned')
+                continue
+
+            # boolean structure of the test over atoms; the partial() call is one of them
+            atoms: list[str] = []
+
+            def build(x: ast.AST):
+                if isinstance(x, ast.BoolOp):
+                    parts = [build(v) for v in x.values]
+                    return (lambda a, parts=parts: all(p(a) for p in parts)) if isinstance(x.op, ast.And) else (lambda a, parts=parts: any(p(a) for p in parts))
+                if isinstance(x, ast.UnaryOp) and isinstance(x.op, ast.Not):
+                    inner = build(x.operand)
+                    return lambda a, inner=inner: not inner(a)
+                key = 'P' if x is pc else norm(x)
+                if key not in atoms:
+                    atoms.append(key)
+                return lambda a, key=key: a[key]
+
+            f = build(test_if.test)
+            others = [a for a in atoms if a != 'P']
+            empties = lambda sts: any(isinstance(r, ast.Return) and isinstance(r.value, (ast.List, ast.Tuple)) and not r.value.elts or (isinstance(r, ast.Return) and isinstance(r.value, ast.Constant) and not r.value.value) for r in sts)  # noqa: E731
+            bad = None
+            for vals in itertools.product([False, True], repeat=len(others)):
+                env = dict(zip(others, vals), P=False)
+                taken = test_if.body if f(env) else test_if.orelse
+                if not empties(taken):
+                    bad = env
+                    break
+            if bad is None:
+                run.ok(inst, 'if %s' % norm(test_if.test)[:60])
+            else:
+                run.violation(
+                    q,
+                    'partial() false does not end in the empty result: if %s' % norm(test_if.test)[:60],
+                    fi.loc(test_if),
+                    'with %s the function goes on and returns what the parser had completed before the error: `announce route A next-hop X ; '
+                    'route 10.0.1.0/33 ...` installs A and is answered done although the line did not parse' % {k: v for k, v in bad.items() if k != 'P'},
+                )
+    if n < 5:
+        run.cannot('only %d partial() gates found in API.api_*' % n)
